@@ -369,6 +369,8 @@ DEFINITIONS_BY_IMPL = {
     'getprice': "def _d(context, p0, p1, p2=None):\n    return prices.get_price(context.tables['prices'].price_map, (p0.upper(), p1.upper()), p2)[1]\n",
     'filter_currency_position': "def _d(p0, p1):\n    if p0.units.currency == p1:\n        return p0\n    return None\n",
     'possign': "def _d(context, p0, p1):\n    if get_account_sign(p1, context.tables['accounts'].types) >= 0:\n        return p0\n    return -p0\n",
+    'grep': "def _d(p0, p1):\n    m = re.search(p0, p1)\n    if m:\n        return m.group(0)\n    return None\n",
+    'grepn': "def _d(p0, p1, p2):\n    m = re.search(p0, p1)\n    if m:\n        return m.group(p2)\n    return None\n",
     'parse_date': "def _d(p0, p1=None):\n    if p1 is None:\n        return dateutil.parser.parse(p0).date()\n    return datetime.datetime.strptime(p0, p1).date()\n",
 }
 
@@ -380,6 +382,10 @@ def _norm_decision(t, o, module):
     # canonical comparisons: ('cmp', op, a, b) in whatever tuple form canon gives; flip the negative spellings
     if isinstance(c, tuple) and len(c) == 4 and c[0] == 'cmp' and c[1] in _FLIP:
         c, o = ('cmp', _FLIP[c[1]], c[2], c[3]), not o
+    # a match object is true, no match is None: `if m` and `if m is not None` are one test
+    if isinstance(c, tuple) and len(c) == 4 and c[0] == 'cmp' and c[1] == 'is' and c[3] is None and isinstance(c[2], tuple) and c[2][:1] == ('call',) \
+            and str(c[2][1]).startswith('re.'):
+        c, o = c[2], not o
     return (repr(c), bool(o))
 
 
